@@ -11,11 +11,11 @@ Import ListNotations.
 (* the process dies at an entry iff it is an unmarked command whose handler panics; the durable log
    afterwards is the old one with the entries under that index re-tagged, nothing else *)
 Theorem C07_mark : forall (S O B : Type) (apply_cmd : S -> entry -> option (S * list O))
-    (apply_mod : S -> entry -> S) (exp_of : S -> N) dlog (f : fsm S O B) e,
-  (forall k d, apply_guarded S O B apply_cmd apply_mod exp_of dlog f e = Died S O B k d ->
+    (apply_mod : S -> entry -> S) (exp_of rev_of : S -> N) dlog (f : fsm S O B) e,
+  (forall k d, apply_guarded S O B apply_cmd apply_mod exp_of rev_of dlog f e = Died S O B k d ->
      e_kind e = KCmd /\ apply_cmd (server f) e = None /\ k = e_idx e /\ d = mark (e_idx e) dlog) /\
   (e_kind e = KCmd -> apply_cmd (server f) e = None ->
-     apply_guarded S O B apply_cmd apply_mod exp_of dlog f e = Died S O B (e_idx e) (mark (e_idx e) dlog)).
+     apply_guarded S O B apply_cmd apply_mod exp_of rev_of dlog f e = Died S O B (e_idx e) (mark (e_idx e) dlog)).
 Proof. intros. split; [intros k d; apply mod_mark|apply mod_mark_conv]. Qed.
 Print Assumptions C07_mark.
 
@@ -23,18 +23,18 @@ Theorem C07_mark_exact : forall k L,
   List.length (mark k L) = List.length L /\
   (forall n e, nth_error L n = Some e ->
      nth_error (mark k L) n = Some (if (e_idx e =? k)%N then retag e else e)) /\
-  (forall e, e_idx (retag e) = e_idx e /\ e_ts (retag e) = e_ts e /\ e_exp (retag e) = e_exp e /\
+  (forall e, e_idx (retag e) = e_idx e /\ e_ts (retag e) = e_ts e /\ e_exp (retag e) = e_exp e /\ e_rev (retag e) = e_rev e /\
              e_payload (retag e) = e_payload e /\ e_kind (retag e) = KMoD).
 Proof. intros k L. split; [apply mark_length|]. split; [apply mark_nth|apply retag_fields]. Qed.
 Print Assumptions C07_mark_exact.
 
 (* applying a marked entry: stored, marker moved by apply_mod, no reply batch, nothing else *)
 Theorem C07_skip : forall (S O B : Type) (apply_cmd : S -> entry -> option (S * list O))
-    (apply_mod : S -> entry -> S) (exp_of : S -> N) dlog (f : fsm S O B) e,
+    (apply_mod : S -> entry -> S) (exp_of rev_of : S -> N) dlog (f : fsm S O B) e,
   e_kind e = KMoD ->
-  apply_guarded S O B apply_cmd apply_mod exp_of dlog f e =
-    Continued S O B (apply_entry S O B (apply_total S O apply_cmd apply_mod) exp_of f e) /\
-  apply_entry S O B (apply_total S O apply_cmd apply_mod) exp_of f e =
+  apply_guarded S O B apply_cmd apply_mod exp_of rev_of dlog f e =
+    Continued S O B (apply_entry S O B (apply_total S O apply_cmd apply_mod) exp_of rev_of f e) /\
+  apply_entry S O B (apply_total S O apply_cmd apply_mod) exp_of rev_of f e =
     mkFsm S O B (put (e_idx e) e (ircstore f)) (outstore f) (lss f) (expdur f) (apply_mod (server f) e).
 Proof. intros. split; [apply mod_no_recover; assumption|apply mod_skip; assumption]. Qed.
 Print Assumptions C07_skip.
@@ -42,17 +42,17 @@ Print Assumptions C07_skip.
 (* a process lifetime ends only at an unmarked command of the log, with exactly that one marked; after the
    restart the same entry does not kill the process again; a lifetime that ends normally applied everything *)
 Theorem C07_process : forall (S O B : Type) (apply_cmd : S -> entry -> option (S * list O))
-    (apply_mod : S -> entry -> S) (exp_of : S -> N) (L : list entry) (f : fsm S O B),
-  (forall k L', run_process S O B apply_cmd apply_mod exp_of L f L = Exited S O B k L' ->
+    (apply_mod : S -> entry -> S) (exp_of rev_of : S -> N) (L : list entry) (f : fsm S O B),
+  (forall k L', run_process S O B apply_cmd apply_mod exp_of rev_of L f L = Exited S O B k L' ->
      (exists e, In e L /\ e_kind e = KCmd /\ e_idx e = k /\ L' = mark k L) /\
-     (forall f' k' L'', run_process S O B apply_cmd apply_mod exp_of L' f' L' = Exited S O B k' L'' -> k' <> k)) /\
-  (forall f', run_process S O B apply_cmd apply_mod exp_of L f L = Finished S O B f' ->
-     f' = fold_left (apply_entry S O B (apply_total S O apply_cmd apply_mod) exp_of) L f).
+     (forall f' k' L'', run_process S O B apply_cmd apply_mod exp_of rev_of L' f' L' = Exited S O B k' L'' -> k' <> k)) /\
+  (forall f', run_process S O B apply_cmd apply_mod exp_of rev_of L f L = Finished S O B f' ->
+     f' = fold_left (apply_entry S O B (apply_total S O apply_cmd apply_mod) exp_of rev_of) L f).
 Proof.
   intros. split.
-  - intros k L' H. split; [apply (process_exit _ _ _ _ _ _ _ _ _ _ _ H)|].
-    intros f' k' L'' H2. apply (process_progress _ _ _ _ _ _ _ _ _ _ _ _ _ H H2).
-  - intros f' H. apply (process_finish _ _ _ _ _ _ _ _ _ _ H).
+  - intros k L' H. split; [apply (process_exit _ _ _ _ _ _ _ _ _ _ _ _ H)|].
+    intros f' k' L'' H2. apply (process_progress _ _ _ _ _ _ _ _ _ _ _ _ _ _ H H2).
+  - intros f' H. apply (process_finish _ _ _ _ _ _ _ _ _ _ _ H).
 Qed.
 Print Assumptions C07_process.
 
@@ -80,7 +80,7 @@ Print Assumptions C07_replay.
 (* ... and the same across every snapshot / persist-failure / restore / restart schedule over the marked
    log (snapshot before or after k): by C02 the server is the plain replay of the marked log *)
 Theorem C07_replay_sched : forall (S O B : Type) (apply_cmd : S -> entry -> option (S * list O))
-    (apply_mod : S -> entry -> S) (exp_of : S -> N) (eqm : S -> S -> Prop),
+    (apply_mod : S -> entry -> S) (exp_of rev_of : S -> N) (eqm : S -> S -> Prop),
   (forall s, eqm s s) -> (forall a b c, eqm a b -> eqm b c -> eqm a c) ->
   (forall s e, eqm (apply_mod s e) s) ->
   (forall s1 s2 e, eqm s1 s2 ->
@@ -88,21 +88,21 @@ Theorem C07_replay_sched : forall (S O B : Type) (apply_cmd : S -> entry -> opti
      snd (apply_total S O apply_cmd apply_mod s1 e) = snd (apply_total S O apply_cmd apply_mod s2 e)) ->
   forall (init : S) (marshal : S -> N -> B) (unmarshal : B -> option (S * N)),
   (forall s k, unmarshal (marshal s k) = Some (s, k)) ->
-  (forall s e, sets_exp e = false -> exp_of (fst (apply_total S O apply_cmd apply_mod s e)) = exp_of s) ->
+  (forall s e, sets_exp (rev_of s) e = false -> exp_of (fst (apply_total S O apply_cmd apply_mod s e)) = exp_of s) ->
   eff_exp (exp_of init) = ten_minutes ->
   forall v : variant, fix_d3 v = true -> fix_d15 v = true ->
   forall (L : list entry) (k : N) (sigma : list step),
   log_ok L ->
   (forall e, In e L -> e_idx e = k -> stored_kind e = true) ->
-  schedule_ok S O B init (apply_total S O apply_cmd apply_mod) marshal unmarshal exp_of v (mark k L) sigma
+  schedule_ok S O B init (apply_total S O apply_cmd apply_mod) marshal unmarshal exp_of rev_of v (mark k L) sigma
               (world0 S O B init) ->
-  let w := run S O B init (apply_total S O apply_cmd apply_mod) marshal unmarshal exp_of v (mark k L) sigma
+  let w := run S O B init (apply_total S O apply_cmd apply_mod) marshal unmarshal exp_of rev_of v (mark k L) sigma
                (world0 S O B init) in
   eqm (server (w_fsm w))
       (replay S O init (apply_total S O apply_cmd apply_mod) (without k (firstn (w_applied w) L))).
 Proof.
-  intros S O B apply_cmd apply_mod exp_of eqm Hr Ht Hm Ha init marshal unmarshal Hrt Hfr Hin v Hd3 Hd15 L k sigma HL Hc Hok.
-  apply (mod_replay_sched S O B apply_cmd apply_mod exp_of eqm Hr Ht Hm Ha init marshal unmarshal Hrt Hfr Hin
+  intros S O B apply_cmd apply_mod exp_of rev_of eqm Hr Ht Hm Ha init marshal unmarshal Hrt Hfr Hin v Hd3 Hd15 L k sigma HL Hc Hok.
+  apply (mod_replay_sched S O B apply_cmd apply_mod exp_of rev_of eqm Hr Ht Hm Ha init marshal unmarshal Hrt Hfr Hin
                           v Hd3 Hd15 L k sigma HL Hc Hok).
 Qed.
 Print Assumptions C07_replay_sched.
